@@ -1,5 +1,5 @@
 PROP = {
-    "lean_modules": ["GunYu.Props.C17"],
+    "lean_modules": ["GunYu.Props.C17", "GunYu.Props.C17Reach", "GunYu.Props.C17RunId", "GunYu.Props.C17Migrate"],
     "audit_namespaces": ["GunYu.Props.C17"],
     "required_theorems": [
         "GunYu.Props.C17.update_prefix_safe",
@@ -14,6 +14,26 @@ PROP = {
         "GunYu.Props.C17.gc_spares_live_id",
         "GunYu.Props.C17.gc_newest_is_largest",
         "GunYu.Props.C17.consts_match_source",
+        # the preconditions as invariants of the writers (Props/C17Reach.lean)
+        "GunYu.Props.C17.reach_good",
+        "GunYu.Props.C17.reach_position",
+        "GunYu.Props.C17.reach_no_tie",
+        "GunYu.Props.C17.reach_updPre_start",
+        "GunYu.Props.C17.reach_updPre_relabel",
+        "GunYu.Props.C17.reach_gcPre",
+        "GunYu.Props.C17.reach_solo",
+        "GunYu.Props.C17.reach_start_safe",
+        "GunYu.Props.C17.reach_start_complete",
+        "GunYu.Props.C17.reach_relabel_safe",
+        "GunYu.Props.C17.reach_gc_safe",
+        "GunYu.Props.C17.reach_gc_spares_label",
+        # RedisOutput.SetRunId across calls (Props/C17RunId.lean)
+        "GunYu.Props.C17.setRunId_good",
+        "GunYu.Props.C17.setRunIdCalls_good",
+        "GunYu.Props.C17.setRunIdCalls_position",
+        # the position a bidirectional start really uses across the recovery-format switch (Props/C17Migrate.lean)
+        "GunYu.Props.C17.migrate_start_exact",
+        "GunYu.Props.C17.migrate_start_inferred",
     ],
     # cmd/syncer.go is not run in-process: the closure `gcStaleCp` (log statements removed), the control flow
     # around it (c17_gc_frame: which nodes are asked for run ids, `return` when one cannot be reached - never
@@ -28,6 +48,12 @@ PROP = {
                             'if len(ids) > 1 && cpRunId == ids[1] && ids[1] != ids[0] { ordered = []string{ids[1], ids[0]} }',
                             'label = ordered[0]',
                             'err = checkpoint.UpdateCheckpoint(cli, localCheckpoint, ordered)'],
+        # RedisOutput.SetRunId as Model/BookSys.lean setRunId transcribes it (logger calls removed): the early return, the ids
+        # passed, the in-memory field assigned only after an attempt succeeded, three attempts
+        "c17_setrunid": '{ if ro.cfg.RunId == id { return nil } return util.RetryLinearJitter(ctx, func() error { cli, err := ro.NewRedisConn(ctx) if err != nil { return err } defer cli.Close() err = checkpoint.UpdateCheckpoint(cli, ro.cfg.CheckpointName, []string{id, ro.cfg.RunId}) if err != nil { return err } ro.cfg.RunId = id return nil }, 3, time.Second*4, 0.3) }',
+        # the checkpoint-key HSETs of the replay path (Model/BookSys.lean senderEntries / writeReq)
+        "c17_sender_cp_writes": ['batcher.Put("hset", checkpointKv.Key, checkpointKv.RunIdKey(), runId, checkpointKv.VersionKey(), config.Version)',
+                                 'batcher.Put("hset", checkpointKv.Key, checkpointKv.OffsetKey(), lastOffset)'],
     },
     "harness": [
         {"name": "C17", "pkg": "./pkg/redis/checkpoint/", "test": "TestVerifC17"},
@@ -35,6 +61,7 @@ PROP = {
         {"name": "C17gs", "pkg": "./syncer/", "test": "TestVerifC17GcSender"},
         {"name": "C17gf", "pkg": "./cmd/", "test": "TestVerifC17GcFrame"},
         {"name": "C17st", "pkg": "./syncer/", "test": "TestVerifC17Start"},
+        {"name": "C17sys", "pkg": "./syncer/", "test": "TestVerifC17Sys"},
     ],
     "driver": "drv_C17",
     "rule": "c17u (UpdateCheckpoint): corpus (D13 witnesses); generated bookkeeping states on the target double: nothing stored / rename / "
@@ -82,12 +109,30 @@ PROP = {
             "(setrunid-error-reply-loses-position); the persistent variant: every request of SetRunId fails until it gives up, the SAME RedisOutput "
             "calls SetRunId again, the replay stores a larger offset under the new id, a NEW process starts and relabels - every prefix a crash "
             "point (relabel-after-failed-relabel-loses-position). "
+            "c17sys (the WRITERS as one system, package syncer; Props/C17Reach.lean): traces from an EMPTY target with the REAL code - first start "
+            "(syncer.updateCheckpoint through a loopback listener) + RedisOutput.setCheckpoint, then 6-14 steps drawn from: a sender life (real RedisOutput.StartPoint + "
+            "sendAof under virtual time, stream of SELECTs / SETs over 4 databases, txn / pipeline / batch sizes varied, the target dying after a random request), a start "
+            "with the current key / the key a cut rename wrote to / a new key name, RedisOutput.SetRunId, a gc pass (threshold 1 ns / 1 h), each cut after a random "
+            "write request (vfdoubles.Replay of the prefix), a source failover (new master id), a new second id, a crash. After EVERY step: op c17good - the Lean driver "
+            "evaluates the invariant `Good` (Proofs/BookGood.lean: hash entries, strict largest offset, label carries the position alone, field order of the two ids, "
+            "offset-has-run-id, well-formedness, pending rename) on the dumped state for the control state the model's step functions predict and must read the "
+            "position the real GetCheckpointHash + GetCheckpoint read; monitors: a maintenance step / a failover / a new second id never changes that position, a life never "
+            "lowers it (system-step-loses-position), the first position is X0@0 (first-position-unreadable), a complete SetRunId issued at least the entry HSET and the hash "
+            "repointing (setrunid-complete-without-relabel = theorem relabel_len). Op c17w: the checkpoint-key HSETs the real sender executed (MULTI applied at EXEC, database "
+            "tracked through SELECT) vs BookSys.writeReq. Op c17sr (RedisOutput.SetRunId across calls): 1-3 calls of the real SetRunId of ONE RedisOutput under virtual time, "
+            "error replies planted at the (k+1)-th write request of chosen attempts (k in 0..5, one call in four failing entirely before the hash is repointed): per attempt "
+            "the applied requests, per call the return value and the in-memory field, the final position vs BookSys.setRunId; monitors setrunid-calls-lose-position, "
+            "setrunid-nil-without-relabel (a call that returned nil: position readable under [new, other]). "
+            "c17mb (in c17m): the offset the REAL bidirectional start resumes at before the switch (RedisOutput.StartPoint in the namespace's current mode) and after EVERY request "
+            "the switch issued (the real resolve re-run + StartPoint in the desired mode), consecutive duplicates removed, vs MigrateNs.bisyncStart / nextStart over the prefixes of "
+            "MigrateNs.migrateReqsB (all branches of the switch; refused switches excluded). "
             "distinct_nontrivial = distinct (operation, precondition class, #requests, #hashes, DB of the position)",
     "trusted": ["target double harness/overlay/pkg/vfdoubles/target.go (per-DB keyspace, HSET keeps field order / HDEL removes the key when empty, INFO keyspace lists non-empty DBs, SELECT per connection)",
                 "Go map iteration over INFO keyspace = any order (parameter of the model; the order the real code used is read from the request log)"],
     "assumptions": [
         "replication ids are 40 hex characters (equal length, no '_'): fetchCheckpoint's HasPrefix/Contains field match is modelled as equality of the parsed (run id, suffix) - the harness generates ids of that shape",
-        "preconditions of the safety theorems (checked by the monitor before it judges a case): under the key the hash resolves to, one DB holds the STRICTLY largest offset X >= 0 of the two ids (C02 after the D5 repair: the position written after a SELECT is larger than the one left in the previous DB; with EQUAL offsets in two DBs gc can move the position to the other DB - example in Props/C17.lean), every numeric field of the ids parses, `_runid` fields store their own id, a new key name holds no field of the ids, an orphaned new-id record left by an interrupted re-key is a copy of the old id's record beside it; gc: both ids are reported by a source and one of them alone reads X in that DB",
+        "the preconditions of the safety theorems (UpdPre / GcPre / Solo: one DB holds the STRICTLY largest offset X >= 0 of the two ids, every numeric field parses, `_runid` fields store their own id, a new key name holds no field of the ids, an orphaned new-id record is a copy, one id alone reads X) are no longer assumed: Props/C17Reach.lean derives them as INVARIANTS of the writers (reach_good) for every state reachable from an EMPTY target by seed / sender lives / starts / SetRunId / gc passes (each stopped after any request) / failovers / crashes, and restates the C17 theorems with reachability as the only hypothesis (reach_start_safe, reach_relabel_safe, reach_gc_safe, reach_gc_spares_label). A tie between two databases (exTie) is unreachable (reach_no_tie). What `Reach` ASSUMES about the environment (stated in its constructors): (1) a sender session replays what Props.C02.Lives assumes of the source stream (LifeHyp: sorted offsets above the stored one, no nested MULTI, SELECT arguments / mapped databases >= 0, the parser does not fail) and the offsets it stores are int64; (2) a new master id / second id was never used on this target before (replication ids are random) and a source failover is learnt while the position is labelled with the current master id (two failovers with no relabel in between leave the position unreadable under the reported ids: outside the model, full resynchronisation); (3) a key name is the current one, the one a cut rename wrote to, or was never used (a name abandoned in the middle of a rename and taken again AFTER the position moved on is outside LocOk; the real code overwrites / outgrows the stale copy); (4) INFO keyspace lists every database holding the key; (5) a sender runs only in a process whose start completed and whose SetRunId returned nil (syncMeta returns the error otherwise); (6) the monitor still checks the preconditions per case on the GENERATED states of c17u / c17g (they are arbitrary, not reachable ones)",
+        "reset + new full sync later in the life of a target (ResetStartPoint + setCheckpoint, C06) is not a step of `Reach`: only the FIRST position is seeded by SetCheckpoint; a target with other syncers' keys / ids beside this one (foreign hash entries) is not modelled in `Reach` (gc_prefix_safe / gc_spares_live_id themselves allow them)",
         "recovery-format switch: the namespace root checkpoint lives in DB 0 (setCheckpoint / seedBisyncNamespace write it there)",
         "D24's repair keeps <id>_runid/<id>_version of a live id in every DB a gc pass empties of its _offset/_mtime. These two small fields per (id, DB) are never collected, not even when the id dies: DelStaleCheckpoint only visits entries with offset > 0 (the same pre-existing filter never collects the offset -1 placeholder entry UpdateCheckpoint writes for a new id either). A permanent but bounded leak (<= #ids ever live x #DBs visited), not a correctness problem: fetchCheckpoint reads such a record as offset -1, which is never selected as a position (generated: norunid / nooffset records, corpus d24_*); visible effects: the DB stays listed in INFO keyspace, so every start / gc pass keeps visiting it. Collecting them needs the dead-id branch to drop the offset > 0 filter (gc change + model + proof), not done",
         "standalone target double: getDbMap's cluster short-cut ({0:0}) and the cluster client's routing of GetAllCheckpointHash / HDEL are not executed (a change there is invisible to this check)",
@@ -97,14 +142,17 @@ PROP = {
         "a format switch the code REFUSES (no authoritative seed: root checkpoint only - pinned by the repo test TestResolveBisyncCheckpointNameRejectsPlainCheckpointFallback -, or a journal gap) issues no request and leaves the target as it was; the start keeps failing until the configured mode is reverted - counted as migrate_refused, not a loss of position",
     ],
     "partial": [
-        "after an attempt of UpdateCheckpoint that does not complete (a stop after k requests, or an error reply to request k+1: the same target state) the operation run again to completion, and the read under the LOCAL key, is PROVED for every way the code runs it again: the START (update_restart_reads_local / _swapped: ids ordered by the checkpoint hash as syncer.updateCheckpoint does - source fact c17_start_order) and the RETRY with the same ids (update_rerun_reads_local; setrunid_retries_read_local / _start_safe: ANY number of incomplete attempts, each on what the ones before left - RedisOutput.SetRunId's RetryLinearJitter, later calls, later processes). That the retry passes the same ids is true of the code only since D33 (SetRunId assigned cfg.RunId = new id even when the attempt failed: its retry ran UpdateCheckpoint(name,[new,new]) and wrote offset -1 over the position - reproduced by c17st with an error reply at every request, fixed ef4c8b8). The precondition `Carrier id2` the retry needed in the previous round is gone: it excluded a state that was REACHABLE on the code before D33 (three failed attempts, early return of the next SetRunId, the replay writes under the unmapped new id) and that UpdateCheckpoint mishandled by deleting the entry it had just written (D34, fixed d026798; model updateReqs follows, UpdPre.orphan removed). Not modelled: SetRunId's early return `cfg.RunId == id` and the in-memory field itself (the harness runs the real function)",
-        "migrate_prefix_safe bounds the ROOT checkpoint of the namespace in DB 0 (X <= X'); the position a bidirectional start really uses (root overridden by latest record / rebuilt frontier) is not in the theorem - it is monitored on every crash point with the real resolveBisyncCheckpointNameWithClient re-run + the real RedisOutput.StartPoint (migrate-next-start-regresses, migrate_next_start_checked); only requests on the checkpoint hash and the two root keys are crash points",
-        "gc_spares_newest_of_live_id / gc_passes_exceptNewest are lemmas that restate the definition (kept for the audit, not required); the property's second sentence is gc_spares_live_id (whole gc pass, ANY live id)",
+        "RedisOutput.SetRunId is now modelled as a state machine over the in-memory field (Model/BookSys.lean setRunId / retryLoop / setRunIdCalls: early return, [new, field] passed, field assigned only after a complete attempt, at most three attempts) and proved (Props/C17RunId.lean): on every reachable state any sequence of calls with any fate of the attempts keeps the SAME position readable under the reported ids and the field equal to the label or (hash already repointed by a failed attempt) to the second id (FieldOK); a call that returns nil has relabelled. An attempt is `k write requests applied, then an error or completion`: an error reply to a READ request of an attempt that has nothing to write (hash already repointed) cannot be expressed (the real attempt fails and is retried; harmless) - c17sr plants errors on write requests only",
+        "migrate_start_exact / migrate_start_inferred (Props/C17Migrate.lean) prove, for the migration PROPER (stored mode marker, or none and the mode inferred; another recovery family, authoritative seed), that after ANY prefix of the switch's requests - namespace-level ones included (frontier snapshot / latest record seed, journal / slot-key / root clean-up: Model/MigrateNs.lean) - the next bidirectional start (switch re-run to completion into a second drawn name, then bisyncStartPoint in the new mode = C14's Frontier.startLatest / startFrontier) resumes at EXACTLY the offset the start in the old mode resumed at. In-place switches (same recovery family) / namespace creation / refused switches have no theorem on the bidirectional start (c17mb compares the former two with the real code). The model ignores the marker keys (`…:marker:{tag}`) and the UpdateCheckpoint the start runs between resolve and StartPoint (a no-op once the hash maps ids[0] to the resolved name)",
+        "`Reach`'s sender step is the sender model's wire log made concrete (BookSys.lifeReqs); that the REAL sender's log is the model's is C02/C07's tie, not re-checked here beyond the shape of the HSETs (c17w, fact c17_sender_cp_writes) and `Good` on the states real sessions leave (c17good)",
+        "c17good evaluates a Bool transcription of `Good` (Drive/C17.lean goodWhy) - not proved equivalent to the Prop; the freshness clauses (names / ids never used) are ghost state and not evaluated",
+        "gc_spares_newest_of_live_id / gc_passes_exceptNewest are lemmas that restate the definition (kept for the audit, not required); the property's second sentence is gc_spares_live_id (whole gc pass, ANY live id) and, on reachable states, reach_gc_spares_label",
     ],
 }
 
 MANIFEST = {
-    "text": "Lean theorems for EVERY initial bookkeeping state meeting the stated preconditions, EVERY database iteration order of every loop and "
+    "text": "The preconditions are invariants of the writers: every state reachable from an empty target by sender lives, SetCheckpoint, UpdateCheckpoint (start / SetRunId), gc passes - each stopped after any request -, failovers and crashes satisfies them (Props/C17Reach.lean, the sender's part imported from C02/C07), so the statements below hold on all reachable states; RedisOutput.SetRunId over calls and failed attempts (Props/C17RunId.lean); the bidirectional start resumes at exactly the same offset after any prefix of the recovery-format switch (Props/C17Migrate.lean). "
+            "Lean theorems for EVERY initial bookkeeping state meeting the stated preconditions, EVERY database iteration order of every loop and "
             "EVERY prefix of the write requests issued: UpdateCheckpoint (rename / re-key), the bidirectional recovery-format switch and stale-checkpoint "
             "gc leave a target on which GetCheckpointHash + GetCheckpoint read the same (switch: a not smaller) offset in the same database; "
             "DelStaleCheckpoint with exceptNewest never deletes in the database holding the id's largest offset, for every clock position. "
